@@ -702,7 +702,11 @@ func (pc ParseContext) compileCompare(ctx context.Context, b ast.Branch, c ast.C
 			return nil, err
 		}
 		argExprs = append(argExprs, argExpr)
-		comps = append(comps, compareOps[op])
+		comp, has := compareOps[op]
+		if !has {
+			return nil, fmt.Errorf("unknown comparison operator %s", op)
+		}
+		comps = append(comps, comp)
 
 		opStrs = append(opStrs, op)
 	}
@@ -1583,6 +1587,11 @@ var compareOps = map[string]rel.CompareFunc{
 	">":  func(a, b rel.Value) (bool, error) { return b.Less(a), nil },
 	"<=": func(a, b rel.Value) (bool, error) { return !b.Less(a), nil },
 	">=": func(a, b rel.Value) (bool, error) { return !a.Less(b), nil },
+
+	"!<":  func(a, b rel.Value) (bool, error) { return !a.Less(b), nil },
+	"!>":  func(a, b rel.Value) (bool, error) { return !b.Less(a), nil },
+	"!<=": func(a, b rel.Value) (bool, error) { return b.Less(a), nil },
+	"!>=": func(a, b rel.Value) (bool, error) { return a.Less(b), nil },
 
 	"(<)":   func(a, b rel.Value) (bool, error) { return subset("(<)", a, b) },
 	"(>)":   func(a, b rel.Value) (bool, error) { return subset("(>)", b, a) },
